@@ -6,6 +6,50 @@ ASSUMPTIONS = ['inductive step from an arbitrary pre-state: share values > 0, sh
                'rounding allowance per operation: (asset share value + liability share value)/2^48 + 4 ulps of I80F48 (2^-48 native units)']
 
 
+def t_borrow_fee(world):
+    """C01.b: the borrow handler books amount+origination fee as debt, pays out `amount`, and credits the fee buckets with exactly the difference"""
+    import z3
+    from specs.handlers import run_handler, KERNELS
+    from specs.flows import SUMMARIES, evs
+    from specs.C12 import find_accounts
+    kernels = [k for k in KERNELS if k != r'BankAccountWrapper']
+    eng, f, args, res = run_handler(world, r'borrow::lending_account_borrow$', kernels=kernels, summaries=SUMMARIES)
+    ob = Ob('C01.b.borrow', 'borrow handler: booked debt = payout + origination fee; fee buckets (group + program) grow by exactly the origination fee, each by a non-negative share; tokens leaving the vault = the pre-fee amount',
+            [f.name], 'handler mode (wrapper op summarised, token CPI opaque); all amounts, fee rates in [0,1], buckets below 2^100 (no saturation)'); ob.paths = len(res)
+    n_ok = 0
+    for r, okc in ok_paths(res):
+        E = evs(r)
+        ops = [e for e in E if e[0] == 'wrap_op']
+        T = [e for e in E if e[0] == 'call' and re.search(r'withdraw_spl_transfer$', e[1])]
+        if [o[1] for o in ops] != ['borrow'] or len(T) != 1:
+            ob.fail(f'accepting path with wrapper ops {[o[1] for o in ops]} and {len(T)} transfers'); continue
+        if ob.witness(eng, r, [okc]) is False: continue
+        n_ok += 1
+        accts = {}
+        for root in r['roots']: accts.update(find_accounts(eng, root))
+        banks = [c for c, sv in accts.items() if re.sub(r'<.*', '', sv.ty).split('::')[-1] == 'Bank']
+        grp = [c for c, sv in accts.items() if 'MarginfiGroup' in sv.ty]
+        if len(banks) != 1: ob.fail(f'bank account objects: {banks}'); continue
+        sv = accts[banks[0]]
+        g0 = lambda n: fsym(sv.name, 'Bank', n); g1 = lambda n: ev(fget(eng, sv, 'Bank', n))
+        booked = ops[0][3].e; out = T[0][2][1].e
+        fee = booked - out * W
+        d_grp = g1('collected_group_fees_outstanding') - g0('collected_group_fees_outstanding')
+        d_prg = g1('collected_program_fees_outstanding') - g0('collected_program_fees_outstanding')
+        rate_names = [n for n in free_consts(z3.And(r['pc'] + [d_grp == 0, d_prg == 0])) if grp and n.startswith(grp[0])]
+        dom = [g0('collected_group_fees_outstanding') >= 0, g0('collected_group_fees_outstanding') < (1 << 100) * W,
+               g0('collected_program_fees_outstanding') >= 0, g0('collected_program_fees_outstanding') < (1 << 100) * W] + \
+              [z3.And(z3.Int(n) >= 0, z3.Int(n) <= W) for n in rate_names] + \
+              [fsym(sv.name, 'Bank', 'config.interest_rate_config.protocol_origination_fee') >= 0, fsym(sv.name, 'Bank', 'config.interest_rate_config.protocol_origination_fee') <= W]
+        ob.prove(eng, r, [okc] + dom, z3.And(fee >= 0, out >= 0), 'booked debt >= tokens paid out')
+        ob.prove(eng, r, [okc] + dom, d_grp + d_prg == fee, 'group + program fee buckets grow by exactly booked debt - payout (the origination fee)', role='fee-split')
+        ob.prove(eng, r, [okc] + dom, z3.And(d_grp >= 0, d_prg >= 0), 'neither bucket shrinks', role='fee-split-sign')
+        ob.prove(eng, r, [okc], z3.And(ops[0][5] == 0, zint(T[0][3].disc) == 0), 'wrapper / transfer errors propagated')
+    ob.notes.append(f'{n_ok} accepting paths')
+    ob.need_witness()
+    return [ob]
+
+
 def tasks(tier):
     n = 40 if tier == 'quick' else 1000
-    return [(f'{op}', wrapper_task(op, 'C01', n)) for op in OPS if goals_for(op, OpPre, ('C01',))]
+    return [('borrow_fee', t_borrow_fee)] + [(f'{op}', wrapper_task(op, 'C01', n)) for op in OPS if goals_for(op, OpPre, ('C01',))]
